@@ -170,7 +170,7 @@ def run_stress(rep, tier, seed, n, only=None, tag="stress", test=None):
     st = dict(STREAM)
     if os.environ.get("VERIF_C07_NORACE") == "1":     # experiments only: look at the linearizability check alone
         st["race"] = False
-    ov = vf.overlay_for(PID, st["overlay"])
+    ov = c07_overlay(False)
     env = {"VERIF_SEED": seed, "VERIF_N": n, "VERIF_TIER": tier}
     if only is not None:
         env["VERIF_ONLY"] = only
@@ -199,40 +199,55 @@ SCHED = {
     "eval_module": "Run.Eval_C07Sched", "check_term": "check_sched repo_skel",
     "n_quick": 1100, "n_thorough": 20000, "shard": 100, "timeout": 1800,
 }
-INSTR_GO = os.path.join(OUTD, "repository_impl_instrumented.go")
+INSTR_DIR = os.path.join(OUTD, "instrumented")
 INSTR_JSON = os.path.join(OUTD, "instr.json")
+ACCESS_GO = os.path.join(OUTD, "zz_verif_c07_access_test.go")
 
 
 def gen_instr():
-    """rebuild harness/tools/instr and write the instrumented copy of repository_impl.go of the checked tree"""
+    """rebuild harness/tools/instr; write the instrumented copies of the files declaring the guarded state of the checked
+    tree, and the accessor file through which the drivers reach the repository's fields (bound by TYPE, not by name)"""
     os.makedirs(OUTD, exist_ok=True)
     tool = os.path.join(OUTD, "instr")
     rc, o = vf.sh(["go", "build", "-o", tool, "."], cwd=os.path.join(vf.HARNESS, "tools", "instr"), env=vf.GOENV, timeout=600)
     if rc != 0:
         return False, "instrumenter does not build: " + o[-1500:]
-    rc, o = vf.sh([tool, "-repo", vf.REPO, "-file", SKEL_SRC, "-type", "repository", "-out", INSTR_GO, "-json", INSTR_JSON],
-                  timeout=120)
+    if os.path.isdir(INSTR_DIR):
+        for f in os.listdir(INSTR_DIR):
+            os.remove(os.path.join(INSTR_DIR, f))
+    rc, o = vf.sh([tool, "-repo", vf.REPO, "-file", SKEL_SRC, "-type", "repository", "-outdir", INSTR_DIR, "-json", INSTR_JSON,
+                   "-access", ACCESS_GO], timeout=120)
     if rc != 0:
         return False, "instrumenter failed on %s: %s" % (SKEL_SRC, o[-1500:])
     try:
         notes = json.load(open(INSTR_JSON)).get("notes") or []
     except Exception:
         notes = []
-    return True, "instrumented copy " + INSTR_GO + ("; instrumenter notes: " + "; ".join(sorted(set(notes))) if notes else "")
+    return True, "instrumented copies in " + INSTR_DIR + ("; instrumenter notes: " + "; ".join(sorted(set(notes))) if notes else "")
 
 
-def sched_overlay():
+def c07_overlay(instrumented):
+    """overlay of a C07 driver build: helper package, driver(s), the generated accessor file; for the sched stream also the
+    shim package and the instrumented copies, which are compiled INSTEAD of the originals"""
+    rules = os.path.dirname(SKEL_SRC)
     rep = {
         os.path.join(vf.REPO, "internal/zzverif/vf/vf.go"): os.path.join(vf.HARNESS, "vf/vf.go"),
-        os.path.join(vf.REPO, "internal/zzverif/sched/sched.go"): os.path.join(vf.HARNESS, "sched/sched.go"),
-        os.path.join(vf.REPO, "internal/rules/zz_verif_c07_test.go"): os.path.join(vf.HARNESS, "c07/c07_test.go"),
-        os.path.join(vf.REPO, "internal/rules/zz_verif_c07_sched_test.go"): os.path.join(vf.HARNESS, "c07/c07_sched_test.go"),
-        os.path.join(vf.REPO, SKEL_SRC): INSTR_GO,       # the instrumented copy is compiled INSTEAD of the original
+        os.path.join(vf.REPO, rules, "zz_verif_c07_test.go"): os.path.join(vf.HARNESS, "c07/c07_test.go"),
+        os.path.join(vf.REPO, rules, "zz_verif_c07_access_test.go"): ACCESS_GO,
     }
-    path = os.path.join(OUTD, "overlay_sched.json")
+    if instrumented:
+        rep[os.path.join(vf.REPO, "internal/zzverif/sched/sched.go")] = os.path.join(vf.HARNESS, "sched/sched.go")
+        rep[os.path.join(vf.REPO, rules, "zz_verif_c07_sched_test.go")] = os.path.join(vf.HARNESS, "c07/c07_sched_test.go")
+        for rel, out in json.load(open(INSTR_JSON)).get("files", {}).items():
+            rep[os.path.join(vf.REPO, rel)] = out
+    path = os.path.join(OUTD, "overlay_sched.json" if instrumented else "overlay.json")
     with open(path, "w") as f:
         json.dump({"Replace": rep}, f, indent=1)
     return path
+
+
+def sched_overlay():
+    return c07_overlay(True)
 
 
 def skel_preamble():
@@ -255,16 +270,12 @@ TIE_CODES = {101: "the events logged for an operation are not a path of its meth
 
 def run_sched(rep, tier, seed, cmds, nm, replay=None):
     """returns True if a concrete failing schedule was reported"""
-    ok, msg = gen_instr()
-    rep.obligation("generate:instrumented-copy", ok)
-    cmds.append("go build harness/tools/instr && instr -repo $REPO -file %s -out out/C07/repository_impl_instrumented.go" % SKEL_SRC)
-    if ok and "notes:" in msg:
-        rep.notes.append(msg)
-    if not ok:
-        rep.notes.append(msg)
-        rep.obligation("stream:sched", False)
-        rep.violation({"kind": "correspondence-broken", "stream": "sched", "why": "the instrumented copy cannot be produced",
-                       "detail": msg[-1500:], "case": None}, no_input=True)
+    # cfg0 (C07/Sched.v) gives the guarded pointer fields 0..14 distinct initial objects: a named obligation, not a build failure
+    fits = len(nm.get("vars") or []) <= 15
+    rep.obligation("assumption:guarded-fields-fit-cfg0", fits)
+    if not fits:
+        rep.notes.append("sched: the guarded type has more than 15 data fields; the replay's initial configuration cfg0 does not "
+                         "cover it - the stream is skipped")
         return False, []
     n = SCHED["n_quick"] if tier == "quick" else SCHED["n_thorough"]
     summ = os.path.join(OUTD, "sched_summary.json")
@@ -280,7 +291,7 @@ def run_sched(rep, tier, seed, cmds, nm, replay=None):
     rc, out, obs_path = vf.go_run_driver(PID, SCHED["pkg"], SCHED["test"], sched_overlay(), env=env, race=False,
                                          timeout=SCHED["timeout"], tag="sched")
     cmds.append("go test -tags verif -overlay out/C07/overlay_sched.json -c ./internal/rules && driver -test.run ^TestVerifC07Sched$ "
-                "(VERIF_SEED=%s VERIF_N=%s; repository_impl.go replaced by its instrumented copy)" % (seed, n))
+                "(VERIF_SEED=%s VERIF_N=%s; the files declaring the guarded state replaced by their instrumented copies)" % (seed, n))
     obs = read_obs_tolerant(obs_path)
     for o in obs:
         o["stream"] = "sched/" + (o.get("stream") or "")
@@ -454,6 +465,23 @@ def custom(P, tier, seed, replay=None):
             proofs_ok = False
 
     sched_replay = bool(replay) and replay.get("stream") == "sched"
+
+    # 1b. instrumented copies + the accessor file the drivers of ALL streams are compiled with
+    iok, imsg = gen_instr()
+    rep.obligation("generate:instrumented-copy+driver-accessors", iok)
+    cmds.append("go build harness/tools/instr && instr -repo $REPO -file %s -outdir out/C07/instrumented -access "
+                "out/C07/zz_verif_c07_access_test.go" % SKEL_SRC)
+    if "notes:" in imsg or not iok:
+        rep.notes.append(imsg)
+    if not iok:
+        rep.violation({"kind": "correspondence-broken", "stream": "all",
+                       "why": "the guarded state of the repository cannot be identified structurally (mutexes by type, the tree "
+                              "pointer, the rule list and the default rule by their types): no driver can be bound to this tree",
+                       "obligation": "generate:instrumented-copy+driver-accessors", "detail": imsg[-1500:], "case": None}, no_input=True)
+        cov = {"evaluations": 0, "distinct_nontrivial": 0, "rule": P["rule"], "samples": [], "input_distribution": {},
+               "theorems": ass or {}, "source_fingerprint": vf.fingerprint(P.get("anchors", [])), "exhaustive": False,
+               "skeleton": {"wf": wf_ok}}
+        return rep.finish(cov, vf.TRUSTED_COMMON + P.get("trusted", []), " ; ".join(cmds), P.get("assumptions", []))
 
     # 2a. every lock-boundary schedule of tiny plans (and sampled schedules of larger ones) on the instrumented copy;
     # first, so that its deterministic replays head the list of violations
